@@ -43,7 +43,7 @@ def run(ctx, report: Report) -> None:
 
     # ---- R1 / R3 -----------------------------------------------------------------------------------------
     r1 = report.rule('C08-R1', 'only the documented TypeError leaves the matching API', floor=1)
-    r3 = report.rule('C08-R3', 'partial operations reachable from the matching API are discharged', floor=12)
+    r3 = report.rule('C08-R3', 'partial operations reachable from the matching API are discharged', floor=3)
     esc = {}
     for e in ENTRIES:
         esc.update(ef.escapes(e))
@@ -78,14 +78,26 @@ def run(ctx, report: Report) -> None:
     _, gabn = src.func('css_match._DocumentNav.get_attribute_by_name')
     params = [a.arg for a in gabn.args.args]
     dflt = params[-1]
-    rets = [n.value for n in ast.walk(gabn) if isinstance(n, ast.Return) and n.value is not None]
-    passthrough = False
-    if len(rets) == 1 and isinstance(rets[0], ast.Name):
-        rv = rets[0].id
-        assigns = [st.value for st in ast.walk(gabn) if isinstance(st, ast.Assign) and any(
-            isinstance(t, ast.Name) and t.id == rv for t in st.targets)]
-        passthrough = all((isinstance(a, ast.Name) and a.id == dflt) or (
-            isinstance(a, ast.Call) and call_name(a).endswith('normalize_value')) for a in assigns) and bool(assigns)
+    rets = [n.value for n in ast.walk(gabn) if isinstance(n, ast.Return)]
+
+    def nonnull_or_default(a, depth=0):
+        if a is None:
+            return False
+        if isinstance(a, ast.Name) and a.id == dflt:
+            return True
+        if isinstance(a, ast.Call) and call_name(a).endswith('normalize_value'):
+            return True
+        if isinstance(a, ast.Call) and call_name(a) in ('str', 'cast', 'typing.cast') and a.args:
+            return call_name(a) == 'str' or nonnull_or_default(a.args[-1], depth)
+        if isinstance(a, ast.IfExp):
+            return nonnull_or_default(a.body, depth) and nonnull_or_default(a.orelse, depth)
+        if isinstance(a, ast.Name) and depth < 3:
+            assigns = [st.value for st in ast.walk(gabn) if isinstance(st, (ast.Assign, ast.AnnAssign)) and any(
+                isinstance(t, ast.Name) and t.id == a.id for t in (st.targets if isinstance(st, ast.Assign) else [st.target]))]
+            return bool(assigns) and a.id not in params and all(nonnull_or_default(x, depth + 1) for x in assigns)
+        return False
+    falls_off = not isinstance(gabn.body[-1], (ast.Return, ast.Raise))
+    passthrough = bool(rets) and not falls_off and all(nonnull_or_default(r) for r in rets)
     _, nv = src.func('css_match._DocumentNav.normalize_value')
     nv_none = any(isinstance(n, ast.Return) and (n.value is None or (isinstance(n.value, ast.Constant) and n.value.value is None))
                   for n in ast.walk(nv))
